@@ -63,8 +63,12 @@ class Facts:
         if not pl["p"] and pl["l"] in env:
             return env[pl["l"]]
         cp = self._canon_place(pl)
-        key = self._atom(self._place_key(cp), kind="place", place=cp, text=place_str(self.fn, cp), fields=place_fields(cp))
-        return ("atom", key, True)
+        pk = self._place_key(cp)
+        if pk not in self.atoms:
+            # a payload read out of a call's result (`f(..)? == true`, `if let Some(b) = g() { if b ..`) is a fact about that call
+            payload_of = self._discr_call(cp) if any(isinstance(e, dict) and "d" in e for e in cp["p"]) else None
+            self._atom(pk, kind="place", place=cp, text=place_str(self.fn, cp), fields=place_fields(cp), call=payload_of)
+        return ("atom", pk, True)
 
     # ---- transfer ------------------------------------------------------
     def _refresh(self, b, facts):
@@ -104,10 +108,19 @@ class Facts:
             if s["k"] != "assign" or s["pl"]["p"]:
                 continue
             l = s["pl"]["l"]
-            if fn.locals[l]["ty"] != "bool":
-                continue
             rv = s["rv"]
             k = rv["k"]
+            if fn.locals[l]["ty"] != "bool":
+                # enum-valued locals: remember which variant was just built (a bool flag turned into a two-variant enum, an outcome
+                # enum returned by an inlined helper) so that a later `match` on it follows only the feasible arm
+                if k == "aggr" and rv.get("ak") == "adt" and rv.get("variant") and (rv.get("adt") or "").startswith("sqlgrep::"):
+                    env[l] = ("variant", rv["variant"])
+                elif k == "use" and rv["op"]["k"] in ("copy", "move") and not rv["op"]["pl"]["p"] and \
+                        env.get(rv["op"]["pl"]["l"], (None,))[0] == "variant":
+                    env[l] = env[rv["op"]["pl"]["l"]]
+                elif l in env:
+                    env.pop(l, None)
+                continue
             if k == "use":
                 v = self._sym_of_operand(rv["op"], env)
                 if v is None:
@@ -170,6 +183,31 @@ class Facts:
                 out.append((tgt, env, (facts | {fact}) if rel else facts))
             return out
         if info and info[0] == "discr":
+            dpl = info[1]["pl"]
+            # through `&x` / copies of an unprojected local whose variant is known on this path
+            root = dpl
+            for _ in range(4):
+                if root["p"] and not all(e == "*" for e in root["p"]):
+                    break
+                known = env.get(root["l"])
+                if known is not None and known[0] == "variant":
+                    names_ = {dv: n for dv, n in info[1].get("variants", [])}
+                    for lab, tgt in info[2].items():
+                        if lab != "otherwise" and names_.get(lab) == known[1] and tgt in succs:
+                            return [(tgt, env, facts)]
+                    listed_ = [names_.get(l2) for l2 in info[2] if l2 != "otherwise"]
+                    if known[1] not in listed_ and info[2]["otherwise"] in succs:
+                        return [(info[2]["otherwise"], env, facts)]
+                    break
+                defs = F._assign_defs(fn).get(root["l"], [])
+                if len(defs) == 1 and not F._call_defs(fn).get(root["l"]) and defs[0][1]["rv"]["k"] in ("ref", "copy_for_deref", "use"):
+                    rv0 = defs[0][1]["rv"]
+                    nxt = rv0["pl"] if rv0["k"] != "use" else (rv0["op"]["pl"] if rv0["op"]["k"] in ("copy", "move") else None)
+                    if nxt is None:
+                        break
+                    root = nxt
+                    continue
+                break
             cp = self._canon_place(info[1]["pl"])
             key = self._atom("discr:" + self._place_key(cp)[6:], kind="discr", place=cp, text=place_str(fn, cp), adt=info[1].get("adt"),
                              call=self._discr_call(info[1]["pl"]))
@@ -225,7 +263,7 @@ class Facts:
     def _liveness(self):
         """live-in sets of bool locals per block (so that the symbolic value of a dead temporary does not keep worlds apart)"""
         fn = self.fn
-        bools = set(l for l, d in enumerate(fn.locals) if d["ty"] == "bool")
+        bools = set(l for l, d in enumerate(fn.locals) if d["ty"] == "bool" or d["ty"].startswith("sqlgrep::") or d["ty"].startswith("&sqlgrep::"))
         use, deff = {}, {}
 
         def reads(o, acc):
@@ -360,6 +398,8 @@ class Facts:
                 out.append((a["call"], val))
             elif a.get("kind") == "discr" and a.get("call") is not None:
                 out.append((a["call"], val))
+            elif a.get("kind") == "place" and a.get("call") is not None and isinstance(val, bool):
+                out.append((a["call"], val))
         return out
 
     def place_facts(self, bb):
@@ -367,7 +407,7 @@ class Facts:
         out = []
         for key, val in self.at(bb):
             a = self.atoms.get(key, {})
-            if a.get("kind") == "place":
+            if a.get("kind") == "place" and a.get("call") is None:
                 out.append((a["fields"], a["place"]["l"], val))
             elif a.get("kind") == "discr" and a.get("call") is None:
                 out.append((place_fields(a["place"]), a["place"]["l"], val))
